@@ -243,7 +243,7 @@ func (w *World) oneSubscription(parent context.Context, ss *subSync, api subAPI,
 			deliver(blk)
 			time.Sleep(gap)
 		}
-		deadline := time.Now().Add(600 * time.Second)
+		deadline := time.Now().Add(patience())
 		for time.Now().Before(deadline) {
 			deliver(w.mkFeedBlock(markerBase+seq+1, markerPlan(f)))
 			time.Sleep(gap)
@@ -260,12 +260,13 @@ func (w *World) oneSubscription(parent context.Context, ss *subSync, api subAPI,
 				}
 			}
 		}
+		impatient.Store(true)
 		return nil, false
 	}
 	// 1. historical replay: everything before the first marker
 	hist, ok := send(nil, 2*time.Millisecond)
 	if !ok {
-		w.Res.Violate(lib.Violation{Sig: "event-subscription-delivers-nothing", What: fmt.Sprintf("%s: no notification for a matching new head within 600 s (filter %v)", api.name, f), Replay: rep(nil)})
+		w.Res.Violate(lib.Violation{Sig: "event-subscription-delivers-nothing", What: fmt.Sprintf("%s: no notification for a matching new head in time (filter %v)", api.name, f), Replay: rep(nil)})
 		return
 	}
 	var got []string
@@ -313,7 +314,7 @@ func (w *World) oneSubscription(parent context.Context, ss *subSync, api subAPI,
 		for _, gap := range []time.Duration{2 * time.Millisecond, 40 * time.Millisecond, 400 * time.Millisecond} {
 			msgs, ok := send(blk, gap)
 			if !ok {
-				w.Res.Violate(lib.Violation{Sig: "event-subscription-stalls", What: fmt.Sprintf("%s: no marker notification within 600 s", api.name), Replay: rep(plan)})
+				w.Res.Violate(lib.Violation{Sig: "event-subscription-stalls", What: fmt.Sprintf("%s: no marker notification in time", api.name), Replay: rep(plan)})
 				return
 			}
 			last = nil
@@ -398,7 +399,7 @@ func (w *World) runSubscriptionsV8(filters []Filt) {
 		marker := len(w.Chain) - 1
 		want := emsString(naive(w.Chain, f, from, marker))
 		got, ok := "", false
-		deadline := time.Now().Add(600 * time.Second)
+		deadline := time.Now().Add(patience())
 		for time.Now().Before(deadline) && !ok {
 			ss.heads.Send(w.Bundles[marker-1].Block)
 			time.Sleep(2 * time.Millisecond)
@@ -425,7 +426,8 @@ func (w *World) runSubscriptionsV8(filters []Filt) {
 		scancel()
 		w.Res.Hit("subscription:v8-checked")
 		if !ok {
-			w.Res.Violate(lib.Violation{Sig: "event-subscription-delivers-nothing", What: fmt.Sprintf("v8: no notification for the stored marker block within 600 s (filter %v); received %s", f, got),
+			impatient.Store(true)
+			w.Res.Violate(lib.Violation{Sig: "event-subscription-delivers-nothing", What: fmt.Sprintf("v8: no notification for the stored marker block in time (filter %v); received %s", f, got),
 				Replay: map[string]any{"history": w.replay(), "filter": f, "api": "v8"}})
 			continue
 		}
